@@ -176,6 +176,26 @@ impl<A: Send + 'static> Cell<A> {
                 // Hack: Add stream gc node twice, because one is kepted in the cell_data for Cell::update() to return.
                 node.add_update_dependencies(vec![stream_dep.clone(), stream_dep]);
             }
+            // A value that was never forced is a thunk that may own handles (the function of a lift,
+            // the cell a CellLoop is looped to) which the collector is told about through other nodes
+            // only. When this node is collected, let go of it, or such a handle outlives the nodes
+            // that declared it and the collection fails with "ref count did not drop to zero".
+            {
+                let weak_data = Arc::downgrade(&cell_data);
+                node.data.cleanups.write().push(Box::new(move || {
+                    if let Some(cell_data) = weak_data.upgrade() {
+                        let stale = {
+                            let mut data = cell_data.lock();
+                            data.next_value_op = None;
+                            mem::replace(
+                                &mut data.value,
+                                Lazy::new(|| -> A { panic!("Cell sampled after it was collected.") }),
+                            )
+                        };
+                        drop(stale);
+                    }
+                }));
+            }
             let c = Cell {
                 data: cell_data,
                 node: node.clone(),
